@@ -60,6 +60,17 @@ def check_panel(case, ctx):
             Ft = Ft * fac[:, :, None, None]
         Fn = np.ascontiguousarray(Ft)
         Fref = Fn
+        # the same table in another memory layout (Fortran order, transposed view of (6,6,ny,nx) data, strided view)
+        lay = case.get('table_layout', 'C')
+        if lay == 'F':
+            Fn = np.asfortranarray(Fn)
+        elif lay == 'T':
+            Fn = np.ascontiguousarray(Fn.transpose(3, 2, 1, 0)).transpose(3, 2, 1, 0)
+        elif lay == 'strided':
+            big = np.zeros((nx, 2 * ny, 6, 6))
+            big[:, ::2] = Fn
+            Fn = big[:, ::2]
+        ctx.label('table-layout:' + lay)
     c_before = c.copy()
 
     with package(name + '.fint'):
@@ -305,6 +316,7 @@ def _panel_strategy(draw, tier='quick'):
     case['dirseed'] = draw(st.integers(0, 2 ** 20))
     case['coords'] = [draw(st.integers(0, 400)) for _ in range(3)]
     case['npath'] = draw(st.integers(1, 3))
+    case['table_layout'] = draw(st.sampled_from(['C', 'C', 'F', 'T', 'strided']))
     case['c_form'] = draw(st.sampled_from(['contiguous', 'contiguous', 'strided', 'column']))   # calc_kT insists on an ndarray (explicit TypeError)
     return case
 
